@@ -33,6 +33,13 @@ Theorem C13_save_iff_spec : forall i, (exists j, fi_save i = Ok j) <-> fi_spec i
 Proof. exact save_iff_spec. Qed.
 Theorem C13_save_only_valid : forall i j, fi_save i = Ok j -> j = i /\ fi_spec j.
 Proof. exact save_only_valid. Qed.
+(** a refused save is always refused by validate(), i.e. before the target is touched; the
+    serialiser's own angle test can no longer fail after the wipe (finding F9 is gone) *)
+Theorem C13_save_never_late : forall i, fi_save i <> Err SSerialize.
+Proof. exact save_never_late. Qed.
+Theorem C13_save_error_is_validate_error : forall i e,
+  fi_save i = Err e <-> exists k, e = SInvalid k /\ fi_validate i = Err k.
+Proof. exact save_error_is_validate_error. Qed.
 
 (** [Font::load] succeeds iff the file is a well-typed font info that satisfies the
     specification; a loaded font never holds a violating font info. *)
